@@ -102,7 +102,13 @@ theorem C01_site_tally_validators_perm_invariant (t0 : Tally) (l l' : List (Stri
 example : tallyValidators ⟨0, 0, 0, 0, 0⟩ [("v1", ⟨true, 3, 0, 0, 0, 3⟩), ("v2", ⟨false, 9, 9, 9, 9, 9⟩), ("v3", ⟨true, 0, 0, 2, 0, 2⟩)]
     = ⟨3, 0, 2, 0, 5⟩ := by decide
 
-/-- `validateParamChangesAreAllowed` (x/committee/types/permissions.go) -/
+/-- `validateParamChangesAreAllowed`, loop over the incoming attributes (x/committee/types/permissions.go) -/
+theorem C01_site_param_keys_known_perm_invariant (inCurrent : String → Bool)
+    (l l' : List (String × String)) (h : l.Perm l') : keysAllKnown inCurrent l = keysAllKnown inCurrent l' := by
+  rw [keysAllKnown_eq_all, keysAllKnown_eq_all]
+  exact h.all_eq
+
+/-- `validateParamChangesAreAllowed`, loop over the current attributes (x/committee/types/permissions.go) -/
 theorem C01_site_param_changes_allowed_perm_invariant (allowed : String → Bool) (incoming : String → Option String)
     (l l' : List (String × String)) (h : l.Perm l') :
     paramChangesAllowed allowed incoming l = paramChangesAllowed allowed incoming l' := by
